@@ -11,6 +11,7 @@ mod c02;
 mod c02_conn;
 mod c03;
 mod c04;
+mod c06;
 mod scen;
 mod c11;
 mod c15;
@@ -52,6 +53,7 @@ fn main() {
         "C02" => c02::run(&args),
         "C03" => c03::run(&args),
         "C04" => c04::run(&args),
+        "C06" => c06::run(&args),
         "C11" => c11::run(&args),
         "C15" => c15::run(&args),
         "C16" => c16::run(&args),
@@ -88,6 +90,7 @@ fn replay(path: &str) -> i32 {
         "C02" => c02::replay(r),
         "C03" => c03::replay(r),
         "C04" => c04::replay(r),
+        "C06" => c06::replay(r),
         "C11" => c11::replay(r),
         "C15" => c15::replay(r),
         "C16" => c16::replay(r),
